@@ -21,7 +21,7 @@
 (* ok = FALSE, records the event index in TLC register 1 and stops.        *)
 (* Acceptance = every line consumed with ok = TRUE (POSTCONDITION).        *)
 (***************************************************************************)
-EXTENDS SigStoreAbs, Json, IOUtils
+EXTENDS SigStoreTraceOps, Json, IOUtils
 
 Trace == ndJsonDeserialize(IOEnv.TRACE)
 
@@ -38,15 +38,6 @@ Mark(b) == IF b THEN TRUE ELSE TLCSet(1, l)
 Judge(b) == ok' = b /\ Mark(b)
 Inflight(ev) == "inflight" \in DOMAIN ev /\ ev.inflight
 
-WithFP(s) == [id |-> s.id, topo |-> s.topo, fuzzy |-> s.fuzzy, ent |-> s.ent,
-              tol |-> s.tol, ver |-> s.ver, fp |-> 0]
-WithId(s, i) == [WithFP(s) EXCEPT !.id = i]
-
-\* resolve auto-generated IDs from the logged results
-RECURSIVE Resolve(_, _)
-Resolve(q, rids) == IF q = <<>> THEN <<>>
-                    ELSE <<WithId(Head(q), Head(rids))>> \o Resolve(Tail(q), Tail(rids))
-
 Init == /\ l = 1 /\ sigs = EmptyMap /\ cfg = [theta |-> 0, tol |-> 0] /\ be = "pebble"
         /\ ok = TRUE /\ mode = "exact" /\ alt = NoAlt /\ TLCSet(1, 0)
 
@@ -54,36 +45,10 @@ TReset == /\ IsEv("reset")
           /\ sigs' = EmptyMap /\ cfg' = [theta |-> e.theta, tol |-> e.tol] /\ be' = e.be
           /\ ok' = TRUE /\ mode' = "exact" /\ alt' = NoAlt /\ l' = l + 1
 
-\* ---------------- mutations ----------------
-Same(S)  == [err |-> FALSE, next |-> S, good |-> TRUE]
-Fails(S) == [err |-> TRUE, next |-> S, good |-> TRUE]
-
-Effect(ev, S) ==
-  CASE ev.ev = "add" ->
-         LET s == ev.sig
-             sid == IF s.id = "" THEN ev.rid ELSE s.id
-         IN IF be = "pebble" /\ AddErr(s) THEN Fails(S)
-            ELSE [err |-> FALSE, next |-> Upsert(S, WithId(s, sid)),
-                  good |-> sid # "" /\ (s.id = "" => sid \notin DOMAIN S)]
-    [] ev.ev = "addbatch" ->
-         IF be = "pebble" /\ AddBatchErr(ev.sigs) THEN Fails(S)
-         ELSE IF Len(ev.rids) # Len(ev.sigs) THEN [err |-> FALSE, next |-> S, good |-> FALSE]
-         ELSE [err |-> FALSE, next |-> UpsertAll(S, Resolve(ev.sigs, ev.rids)),
-               good |-> \A k \in DOMAIN ev.sigs :
-                           /\ ev.rids[k] # ""
-                           /\ (ev.sigs[k].id # "" => ev.rids[k] = ev.sigs[k].id)
-                           /\ (ev.sigs[k].id = "" => ev.rids[k] \notin DOMAIN S)]
-    [] ev.ev = "delete" -> IF DeleteErr(S, ev.id) THEN Fails(S)
-                           ELSE [err |-> FALSE, next |-> Remove(S, ev.id), good |-> TRUE]
-    [] ev.ev = "markfp" -> IF MarkFPErr(S, ev.id) THEN Fails(S)
-                           ELSE [err |-> FALSE, next |-> BumpFP(S, ev.id), good |-> TRUE]
-    \* rebuild, close/reopen, compact, checkpoint: identity on the contract state
-    [] OTHER -> Same(S)
-
 MutEvs == {"add", "addbatch", "delete", "markfp", "rebuild", "reopen", "compact", "checkpoint"}
 
 TMut == /\ ok /\ l <= Len(Trace) /\ e.ev \in MutEvs
-        /\ LET f == Effect(e, sigs) IN
+        /\ LET f == Effect(e, sigs, be) IN
            IF Inflight(e)
            THEN \* the call was cut by the crash: its outcome is decided by "recovered"
                 /\ ok' = TRUE /\ sigs' = sigs /\ alt' = [kind |-> e.ev, post |-> f.next]
